@@ -148,16 +148,16 @@ impl<R: Read> PgnRawParser<R> {
     }
 
     fn read_until(&mut self, byte: u8) -> Result<String, PgnRawParserError> {
-        let mut result = String::new();
+        let mut result = Vec::new();
         let mut cur_byte = self.peek_byte()?;
 
         while cur_byte != byte {
-            result.push(cur_byte as char);
+            result.push(cur_byte);
             self.skip_byte()?;
             cur_byte = self.peek_byte()?;
         }
 
-        Ok(result)
+        Ok(String::from_utf8_lossy(&result).into_owned())
     }
 
     /// A movetext token: up to the next blank or line break (the delimiter is not consumed).
